@@ -384,7 +384,7 @@ class Source:
                 entry['why'] = str(u)
             self._regexes.append(entry)
 
-    def regex(self, mname, binding, cls=None, fn=None):
+    def regex(self, mname, binding, cls=None, fn=None, _alias=False):
         """the regex bound to `binding` (possibly mangled) in module/class/function"""
         cands = []
         for r in self.regexes():
@@ -394,6 +394,15 @@ class Source:
             names = {b, b.split('.')[-1]}
             if binding in names and (cls is None or r['cls'] == cls) and (fn is None or r['fn'] == fn):
                 cands.append(r)
+        if not cands and not _alias:
+            # an alias of another compiled regex:  NAME = OTHER
+            m = self.mod(mname)
+            for scope in ([cls] if cls else []) + ['']:
+                node = m.const_nodes.get(scope, {}).get(binding)
+                if isinstance(node, ast.Name):
+                    return self.regex(mname, node.id, cls=cls if node.id in m.const_nodes.get(cls or '', {}) else None, fn=fn, _alias=True)
+                if isinstance(node, ast.Attribute) and isinstance(node.value, ast.Name) and node.value.id in m.classes:
+                    return self.regex(mname, node.attr, cls=node.value.id, fn=fn, _alias=True)
         if len(cands) != 1:
             raise AnalysisError('regex %s:%s%s: %d candidates' % (mname, (cls + '.') if cls else '', binding, len(cands)))
         r = cands[0]
